@@ -369,7 +369,7 @@ func ruleMessageReads(c *core.Ctx) {
 				bad = "the stream is handed to " + core.CalleeName(call) + " instead of basic.ReadN: bytes beyond header+payload can be consumed, or short reads go unnoticed"
 				continue
 			}
-			if k, ok := core.ConstInt(call.Common().Args[2]); ok && k == hs {
+			if k, ok := constLen(call.Common().Args[2]); ok && k == hs {
 				sawHeader = true
 			}
 			if core.CanReach(call.(ssa.Instruction), func(x ssa.Instruction) bool { return x == call.(ssa.Instruction) }) != nil {
@@ -523,4 +523,34 @@ func returnsTestedError(fn *ssa.Function, ret *ssa.Return) bool {
 	ev := core.Canon(core.RetVal(ret, len(ret.Results)-1))
 	isE := func(v ssa.Value) bool { return core.Canon(v) == ev }
 	return core.Guarded(fn, ret, core.Ne(isE, core.IsNilConst))
+}
+
+// constLen: v is a constant, or len(x) of a buffer whose length is a constant (the whole of
+// a local array, a slice made with a constant length).
+func constLen(v ssa.Value) (int64, bool) {
+	if k, ok := core.ConstInt(v); ok {
+		return k, true
+	}
+	lc, ok := core.StripConv(v).(*ssa.Call)
+	if !ok {
+		return 0, false
+	}
+	bi, ok := lc.Call.Value.(*ssa.Builtin)
+	if !ok || bi.Name() != "len" || len(lc.Call.Args) != 1 {
+		return 0, false
+	}
+	switch x := core.Canon(lc.Call.Args[0]).(type) {
+	case *ssa.Slice:
+		if x.Low != nil || x.High != nil {
+			return 0, false
+		}
+		if pt, ok := x.X.Type().Underlying().(*types.Pointer); ok {
+			if at, ok := pt.Elem().Underlying().(*types.Array); ok {
+				return at.Len(), true
+			}
+		}
+	case *ssa.MakeSlice:
+		return core.ConstInt(x.Len)
+	}
+	return 0, false
 }
